@@ -51,8 +51,31 @@ package gnmi
 //@   modifies nothing
 //@   ensures err == nil ==> resp != nil
 
+//@ ghost lastConnGetOK bool
+//@ ghost connects int
+//@ ghost disconnects int
+//@ ghost lastConnectTarget string
+//@ ghost lastDisconnectTarget string
+//@ uninterp connTargetOf(Conn) string
+
+//@ iface Conn.ID(this) (id)
+//@   pure
+//@   ensures id == connIDOf(this)
+//@ iface Conn.TargetID(this) (id)
+//@   pure
+//@   ensures id == connTargetOf(this)
+
+//@ iface ConnManager.Connect(ctx, target) (err)
+//@   requires target != nil
+//@   modifies connects, lastConnectTarget
+//@   ensures connects == old(connects) + 1 && lastConnectTarget == target.ID
+//@ iface ConnManager.Disconnect(ctx, targetID) (err)
+//@   modifies disconnects, lastDisconnectTarget
+//@   ensures disconnects == old(disconnects) + 1 && lastDisconnectTarget == targetID
+
 //@ iface ConnManager.Get(ctx, connID) (conn, ok)
-//@   modifies nothing
+//@   modifies lastConnGetOK
+//@   ensures lastConnGetOK == ok
 //@   ensures ok ==> conn != nil
 //@   ensures ok ==> connIDOf(conn) == connID
 //@ uninterp connIDOf(Conn) string
